@@ -6,7 +6,8 @@
    FKM-Goodman theorems hold for both.  Only statements, `exact`, Print Assumptions. *)
 From Coq Require Import QArith Qabs Bool List.
 From PL Require Import Strength.MeanStress Strength.MeanStressInv Strength.MeanStressGoodman Strength.MeanStressFive Strength.MeanStressRebin
-  Strength.MeanStressOrder.
+  Strength.MeanStressOrder Strength.MeanStressLayout.
+From Coq Require Import ZArith Permutation.
 Import ListNotations.
 Open Scope Q_scope.
 
@@ -175,6 +176,30 @@ Theorem natural_listing_refuted :
      == fst (transform_state_ord true true Dn (Fin (1#2)) c).
 Proof. exact MeanStressOrder.natural_listing_refuted. Qed.
 
+(* ---- index layout of the inputs.  Matrix interface: rows = (transformed range, cycles) of the classes the matrix lists.  The result
+   classes depend only on the multiset of the NON-EMPTY rows: neither the order of the rows nor whether empty cells are listed at all
+   (sparse matrix, mat[mat > 0]) changes any result class -- provided ranges and cycles are paired row by row (by label), which is
+   what the harness relation "booked bin by bin as the plain function says" checks on the implementation. *)
+Theorem matrix_result_independent_of_row_layout (breaks : list Q) (rows rows' : list (Q * Q)) :
+  Permutation (filter (fun rc => negb (Qeq_bool (snd rc) 0)) rows) (filter (fun rc => negb (Qeq_bool (snd rc) 0)) rows') ->
+  Forall2 Qeq (rebin breaks (map fst rows) (map snd rows)) (rebin breaks (map fst rows') (map snd rows')).
+Proof. exact (MeanStressLayout.rebin_rows_layout breaks rows rows'). Qed.
+
+(* collective interface with one parameter set (diagram) per element: transform_frame transforms every row (element id, cycle) with the
+   diagram its id looks up in the frame of parameter sets.  The order in which the frame lists its distinct ids does not matter, and the
+   k-th row gets exactly the single-diagram transformation with the diagram of its element. *)
+Theorem frame_index_order_irrelevant (fo fx : bool) (ps ps' : list (Z * list Seg)) (G : ExtQ) (rows : list (Z * Cyc)) :
+  NoDup (map fst ps) -> Permutation ps ps' ->
+  transform_frame fo fx ps G rows = transform_frame fo fx ps' G rows.
+Proof. exact (MeanStressLayout.transform_frame_index_order fo fx ps ps' G rows). Qed.
+
+Theorem frame_row_is_single_diagram_transformation (fo fx : bool) (ps : list (Z * list Seg)) (G : ExtQ) (rows : list (Z * Cyc))
+    (k : nat) (i : Z) (D : list Seg) (c : Cyc) :
+  NoDup (map fst ps) -> In (i, D) ps -> nth_error rows k = Some (i, c) ->
+  nth_error (transform_frame fo fx ps G rows) k = Some (transform_ord fo fx D G c).
+Proof. exact (MeanStressLayout.transform_frame_nth fo fx ps G rows k i D c). Qed.
+
+
 Print Assumptions fkm_goodman_closed_form.
 Print Assumptions fkm_goodman_state_closed_form.
 Print Assumptions fkm_path_independent.
@@ -193,3 +218,6 @@ Print Assumptions segment_walk_invariant_any_listing.
 Print Assumptions listing_repair_keeps_fkm_goodman.
 Print Assumptions listing_repair_keeps_five_segment.
 Print Assumptions natural_listing_refuted.
+Print Assumptions matrix_result_independent_of_row_layout.
+Print Assumptions frame_index_order_irrelevant.
+Print Assumptions frame_row_is_single_diagram_transformation.
